@@ -1115,6 +1115,55 @@ fn run_registry(plan: &Plan, lib: &dyn Lib, rec: &mut Rec) {
             rec.expect("C09", "altered-pop-rejected", !out.is_ok(), || format!("bitflip {} g={} | altered proof accepted", bi, g.name()));
         }
     }
+    // a registry that checks proofs LAZILY, inside the iterator it hands to the aggregate verifier (library calls nested in a
+    // library call): every registrant signs a message, the registry verifies the aggregate over a list in which some
+    // entries carry an altered or a foreign proof; each nested verdict must be the one the proof gets on its own
+    {
+        let scheme = 2u8 - (plan.seed % 3) as u8 % 3;
+        let msgs: Vec<Vec<u8>> = (0..k).map(|i| format!("registrant {} signs", i).into_bytes()).collect();
+        let sigs: Vec<Vec<u8>> = (0..k).filter_map(|i| rec.call(lib, g, Op::Sign, &[&ps[i].0.sk, &[scheme], &msgs[i]]).first().map(|v| v.to_vec())).collect();
+        let refs: Vec<&[u8]> = sigs.iter().map(|s| s.as_slice()).collect();
+        if sigs.len() == k {
+            if let Some(agg) = rec.call(lib, g, Op::Aggregate, &refs).first().map(|v| v.to_vec()) {
+                // proofs per entry: own, own shifted by an earlier entry's signature point, the next party's, own again ...
+                let mut pops: Vec<Vec<u8>> = vec![];
+                for i in 0..k {
+                    let own = Pt::from_bytes(&ps[i].1).unwrap();
+                    pops.push(match i % 4 {
+                        1 => Pt::from_bytes(&sigs[i - 1][1..]).map(|sg| own.add(&sg).to_bytes()).unwrap_or(ps[i].1.clone()),
+                        2 => ps[(i + 1) % k].1.clone(),
+                        _ => ps[i].1.clone(),
+                    });
+                }
+                let alone: Vec<u8> = (0..k).map(|i| rec.call(lib, g, Op::PopVerify, &[&pops[i], &ps[i].0.pk]).is_ok() as u8).collect();
+                let mut args: Vec<&[u8]> = vec![&agg, &[1]];
+                for i in 0..k {
+                    args.push(&ps[i].0.pk);
+                    args.push(&msgs[i]);
+                    args.push(&pops[i]);
+                }
+                let nested = rec.call(lib, g, Op::AggVerifyReentrant, &args);
+                let plain = {
+                    let mut a2: Vec<&[u8]> = vec![&agg];
+                    for i in 0..k {
+                        a2.push(&ps[i].0.pk);
+                        a2.push(&msgs[i]);
+                    }
+                    rec.call(lib, g, Op::AggVerify, &a2)
+                };
+                rec.fault("library-call-nested-in-library-call");
+                let verdicts: Option<Vec<u8>> = match &nested {
+                    Out::Ok(v) => v.first().cloned(),
+                    Out::Rej(m) => m.split("nested verdicts ").nth(1).map(|t| t.trim_matches(|c| c == '[' || c == ']').split(',').filter_map(|x| x.trim().parse::<u8>().ok()).collect()),
+                    _ => None,
+                };
+                rec.expect("C09", "accepted-iff-made-by-that-key", verdicts.as_deref() == Some(alone.as_slice()) || verdicts.as_ref().is_some_and(|v| v.len() < k && alone.starts_with(v)), || {
+                    format!("nested-in-aggregate-verify scheme={} g={} | proofs verified from inside the iterator of aggregate_verify get {:?}, on their own {:?}", scheme_name(scheme), g.name(), verdicts, alone)
+                });
+                rec.expect("C09", "own-pop-verifies", nested.is_ok() == plain.is_ok() || verdicts.is_none(), || format!("nested-in-aggregate-verify scheme={} g={} | the aggregate verifies {} with lazily checked proofs and {} without", scheme_name(scheme), g.name(), nested.kind(), plain.kind()));
+            }
+        }
+    }
     rec.sample(|| format!("g={} parties={} key classes={:?} faults={}", g.name(), k, ps.iter().map(|p| p.2).collect::<Vec<_>>(), plan.faults.len()));
     c.finish(rec);
 }
